@@ -142,6 +142,32 @@ def _show_path(sp):
     return ' + '.join(repr(p) if isinstance(p, str) else p[1] for p in sp)
 
 
+_EXIST_FUNCS = {}
+
+
+def _is_existence_test(prog, func, call):
+    """The callee is a file-existence test: a library function of that meaning, or a repository
+    function whose body calls stat / access / std::filesystem::exists and returns bool."""
+    d, qn, virt, recv = prog.resolve_callee(func.tu, call)
+    name = (strip(children(call)[0]).get('referencedDecl') or {}).get('name') or ''
+    if d is None:
+        return name in ('exists', 'is_regular_file', 'access', 'stat')
+    if qn in _EXIST_FUNCS:
+        return _EXIST_FUNCS[qn]
+    defs = prog.definitions_for(func.tu, d, qn)
+    ok = False
+    for g in defs:
+        if g.body is None or 'bool' not in (g.ret or ''):
+            continue
+        for x in walk(g.body):
+            if x.get('kind') == 'CallExpr':
+                nm = (strip(children(x)[0]).get('referencedDecl') or {}).get('name')
+                if nm in ('stat', '_stat', 'access', '_access', 'exists', 'is_regular_file', 'PathFileExistsA'):
+                    ok = True
+    _EXIST_FUNCS[qn] = ok
+    return ok
+
+
 def _existence_guards(prog, func, before_node):
     """Symbolic paths P for which `if (... !path_exists(P) ...) throw` precedes before_node
     among the statements of the function body (all disjuncts of an || condition count)."""
@@ -158,8 +184,8 @@ def _existence_guards(prog, func, before_node):
         for x in walk(cond):
             if x.get('kind') == 'UnaryOperator' and x.get('opcode') == '!':
                 inner = strip(children(x)[0], explicit=True)
-                if inner.get('kind') == 'CallExpr' and \
-                        (strip(children(inner)[0]).get('referencedDecl') or {}).get('name') == 'path_exists':
+                if inner.get('kind') == 'CallExpr' and len(children(inner)) > 1 and \
+                        _is_existence_test(prog, func, inner):
                     out.append(_sym_path(prog, func, children(inner)[1]))
     return out
 
